@@ -58,7 +58,7 @@ def ops(t):
         'terminate-7': lambda ts: [R('TRACE_DATA_THREAD_TERMINATE', 0, (7, 0, 0, 0), t, ts)],
         'terminate-self': lambda ts: [R('TRACE_DATA_THREAD_TERMINATE', 0, (t, 0, 0, 0), t, ts)],
         'name-self': lambda ts: [R('TRACE_STRING_THREADNAME', 0, tid=t, ts=ts, data=b'worker'.ljust(32, b'\0'))],
-        'newthread-pair': lambda ts: [R('TRACE_DATA_NEWTHREAD', 0, (7, 70, 0, 0), t, ts), R('TRACE_STRING_NEWTHREAD', 0, tid=t, ts=ts + 1, data=b'kid'.ljust(32, b'\0'))],
+        'newthread-pair': lambda ts: [R('TRACE_DATA_NEWTHREAD', 0, (7, 70, 0, 0), t, ts), R('TRACE_STRING_NEWTHREAD', 0, tid=t, ts=ts + 1, data=b'my kid'.ljust(32, b'\0'))],     # a name with a blank
         'getpid@7': lambda ts: [R('BSC_getpid', 1, tid=7, ts=ts), R('BSC_getpid', 2, (0, 5, 0, 0), 7, ts + 1)],
         'read-end-only': lambda ts: [R('BSC_read', 2, (0, 63, 0, 0), t, ts)],       # its START fell before the capture
         'read-start-only': lambda ts: [R('BSC_read', 1, (3, 0x7000, 64, 0), t, ts)],  # its END falls after the capture
@@ -76,6 +76,9 @@ CROSS_ALPHABET = [('announce-500', 1), ('announce-500', 2), ('dlopen-500', 1), (
                   ('getpid@7', 1), ('exec-rename', 1), ('getpid', 1), ('getpid', 2), ('open+lookup', 2), ('terminate-7', 1)]
 
 
+V3 = [False]       # set by the 'A+' shard while it repeats the commutation check on version-3 dumps that also carry log records
+
+
 def build_stream(opseq):
     recs = []
     ts = 1
@@ -83,6 +86,12 @@ def build_stream(opseq):
         r = ops(t)[name](ts)
         recs += r
         ts += len(r)
+    if V3[0]:
+        logs = B.v3_block(B.TAG_LOG_EVENTS, B.bplist({'Events': [
+            {'cm': 1, 't': 'logEvent', 's': i, 'tid': 40 + i, 'ns': 5, 'mct': 6 + i, 'b': b'B' * 16, 'piu': b'P' * 16,
+             'ud': {'sec': 1600000000, 'usec': 7}, 'utz': {'mw': 0, 'dt': 0}} for i in range(2)]}))
+        sidx = B.v3_block(B.TAG_LOG_STRINGS, B.bplist({'StringIndex': {'hello': 1, 'proc': 2}}))
+        return B.v3(MAP, [recs[:len(recs) // 2], recs[len(recs) // 2:]], [sidx, logs])
     return B.v2(MAP, 0, recs)
 
 
@@ -293,10 +302,10 @@ class C13(Check):
             'dump with a static thread map; x configurations tid {None,1,2} x process {None,name,pid-string,other,the name after the rename} x class list '
             '(all subsets of {1,3,4,7,0x1f} of size <=2) x BSD subclass list {[],[0x40c],[0x40d]} (list-typed; tuple-typed for the '
             'class/subclass dimension). Oracle: filtered traces == unfiltered traces restricted to those whose first event satisfies '
-            'the filter, also on streams with a 300-record call and with class lists that repeat an entry (the process a trace belongs to is the one its thread has when the trace is reported, read from the unfiltered run). (B) request histories: all sequences of <=3 requests over {traces, formatted_traces, callstacks} on one '
+            'the filter, also on version-3 dumps that carry log records, on streams with a 300-record call and with class lists that repeat an entry (the process a trace belongs to is the one its thread has when the trace is reported, read from the unfiltered run). (B) request histories: all sequences of <=3 requests over {traces, formatted_traces, callstacks} on one '
             'parser object x 11 streams (incl. samples before/after image announcements, a string id / thread name / new thread used before the record that announces it, dumps cut in the middle of operations) x class lists x subclass lists x '
             'tid/process {none, set} x {list, tuple}: each request equals the same request on a fresh parser; filter settings equal '
-            'and same type afterwards. (X) all sequences of <=2 (quick) / <=3 (thorough) operations over 12 kinds through which one thread depends on what another thread emitted (global string announced by a sibling and used by dlopen, a thread declared by its parent, a process renamed by another thread, a terminate record naming another thread) x tid {None,1,2,7} x process {None, static name, declared name, declared pid, renamed name} x class lists {[], [4], [0x1f], [4,0x1f]} x subclass lists {[], [0x0302], [0x0702]}: same oracle, on the traces and (subclass list empty) on the formatted lines with their process column. (B) is also run with all requests of a history MADE before any is read, then read in order and in reverse order. (C) the command-line tool: `traces --no-color` with every tid/process/class/subclass option combination prints the library\'s lines for the same settings. states = distinct configurations; transitions = requests; non-trivial = a non-empty filter.')
+            'and same type afterwards. (X) all sequences of <=2 (quick) / <=3 (thorough) operations over 12 kinds through which one thread depends on what another thread emitted (global string announced by a sibling and used by dlopen, a thread declared by its parent, a process renamed by another thread, a terminate record naming another thread) x tid {None,1,2,7} x process {None, static name, declared name (it contains a blank), each of its two words, declared pid, renamed name} x class lists {[], [4], [0x1f], [4,0x1f]} x subclass lists {[], [0x0302], [0x0702]}: same oracle, on the traces and (subclass list empty) on the formatted lines with their process column. (B) is also run with all requests of a history MADE before any is read, then read in order and in reverse order. (C) the command-line tool: `traces --no-color` with every tid/process/class/subclass option combination prints the library\'s lines for the same settings. states = distinct configurations; transitions = requests; non-trivial = a non-empty filter.')
     assumptions = ('streams do not rely on table updates made by records of a class that a CLASS filter removes, other than the helper classes the statement names '
                    '(kernel trace records, lookups); records of OTHER THREADS that a thread / process filter would hide are relied on (sub-space X): the statement demands identical text',)
 
@@ -341,6 +350,14 @@ class C13(Check):
                                 if code != 0 or exc is not None or lines != exp:
                                     acc.violation('cli-traces-differ-from-library', {'kind': 'cli', 'args': args},
                                                   {'exit': code, 'error': repr(exc)[:200], 'got': lines[:3], 'expected': exp[:3]})
+                                # the count limit counts the lines that are printed (the filtered ones), whatever else is read to decode them
+                                if not show_tid and (tid is not None or proc is not None or cl or sc) and len(sc) <= 1:
+                                    for n in (1, 2):
+                                        code, lines, exc = run_cli(blob, args + ['--count', str(n)])
+                                        acc.case(nontrivial=True, transitions=2, state=h64(('cli-count', tid, proc, cl, sc, n)))
+                                        if code != 0 or exc is not None or lines != exp[:n]:
+                                            acc.violation('cli-count-limit-with-filters-differs-from-first-lines', {'kind': 'cli', 'args': args + ['--count', str(n)]},
+                                                          {'exit': code, 'error': repr(exc)[:200], 'got': lines[:3], 'expected': exp[:n]})
 
     def run_cross(self, seqs_, acc):
         """streams in which one thread's traces depend on records ANOTHER thread emitted (a string announced by a sibling, a
@@ -348,7 +365,7 @@ class C13(Check):
         listing is still the unfiltered one restricted to the filter."""
         # subclass lists: none; a file-system and a kernel-trace subclass no decoder belongs to (they select nothing, and must not stop
         # the tool from reading the helper classes)
-        cfgs = [(t, p, c, sc) for t in (None, 1, 2, 7) for p in (None, 'A', 'kid', '70', 'Z1') for c in ((), (4,), (0x1f,), (4, 0x1f))
+        cfgs = [(t, p, c, sc) for t in (None, 1, 2, 7) for p in (None, 'A', 'my kid', 'kid', 'my', '70', 'Z1') for c in ((), (4,), (0x1f,), (4, 0x1f))
                 for sc in ((), (0x0302,), (0x0702,))]
         for opseq in seqs_:
             for cfg in cfgs:
@@ -370,6 +387,18 @@ class C13(Check):
                 if bad:
                     acc.violation(bad[0], {'kind': 'A', 'ops': [list(o) for o in opseq], 'cfg': [cfg[0], cfg[1], list(cfg[2]), list(cfg[3])], 'as_tuple': False},
                                   {k: (v if not isinstance(v, list) else v[:3] + ['...']) for k, v in bad[1].items()})
+        # the same commutation on version-3 dumps (two event chunks) that also carry log records
+        V3[0] = True
+        try:
+            for opseq in ((('open+lookup', 1), ('getpid', 2), ('trace-exec', 1)), (('exec-rename', 1), ('mmap', 1), ('lone-lookup', 2), ('getpid', 1))):
+                for cfg in [(t, p, c, s) for t in TIDS for p in PROCS for c in class_lists() for s in SUBCLASS_LISTS]:
+                    bad = judge_commute(opseq, cfg, False)
+                    acc.case(nontrivial=True, transitions=2, state=h64((cfg, 'A+v3')))
+                    if bad:
+                        acc.violation(bad[0] + ':version-3-dump-with-log-records', {'kind': 'A-v3', 'ops': [list(o) for o in opseq], 'cfg': [cfg[0], cfg[1], list(cfg[2]), list(cfg[3])]},
+                                      {k: (v if not isinstance(v, list) else v[:3] + ['...']) for k, v in bad[1].items()})
+        finally:
+            V3[0] = False
         for opseq in streams:
             for cfg in [(t, p, c, s) for t in (None, 1) for p in (None, 'A') for c in class_lists() + dup_lists for s in SUBCLASS_LISTS]:
                 bad = judge_commute(opseq, cfg, False)
@@ -428,6 +457,14 @@ class C13(Check):
             acc.sample({'stream': [list(o) for o in HIST_STREAMS[si]], 'requests': ['callstacks', 'traces', 'callstacks']})
 
     def replay(self, case):
+        if case['kind'] == 'A-v3':
+            V3[0] = True
+            try:
+                c = case['cfg']
+                bad = judge_commute(tuple(tuple(o) for o in case['ops']), (c[0], c[1], tuple(c[2]), tuple(c[3])), False)
+            finally:
+                V3[0] = False
+            return [(bad[0] + ':version-3-dump-with-log-records', bad[1])] if bad else []
         if case['kind'] == 'B-lazy':
             c = case['cfg']
             bad = judge_lazy(case['stream'], (c[0], c[1], tuple(c[2]), tuple(c[3])), tuple(case['requests']), case['reverse'])
